@@ -9,6 +9,7 @@ namespace Bardolph
 namespace Sim
 open Vm VmSteps Sem Gen
 
+variable {V : String → Prop}
 variable {img : Image} {K : Ctx}
 
 /-! ## `return` -/
@@ -16,12 +17,13 @@ variable {img : Image} {K : Ctx}
 /-- after `return`: control is back in the caller (one past the recorded return address), the
 callee's call frame and loop frames are gone, everything else is as the source says -/
 structure RetPost (K : Ctx) (σ' : S) (t : State) : Prop where
-  ctx : ∃ ret rest, K.ret = some (ret, rest) ∧ t.pc = ((ret + 1 : Nat) : Int) ∧ t.stack = rest
+  ctx : ∃ ret rest evc, K.ret = some (ret, rest, evc) ∧ t.pc = ((ret + 1 : Nat) : Int) ∧ t.stack = rest
   running : t.status = .running
-  eval : t.eval = []
+  eval : t.eval = K.base
   unnamed : t.unnamed = []
   routines : σ'.routines = K.routines
   status : σ'.vm.status = .running
+  umode : RegsOk σ'.vm.regs
   globals : σ'.vm.globals = t.globals
   constants : σ'.vm.constants = t.constants
   lights : σ'.vm.lights = t.lights
@@ -30,43 +32,46 @@ structure RetPost (K : Ctx) (σ' : S) (t : State) : Prop where
   matrix : σ'.vm.matrix = t.matrix
   draws : σ'.vm.draws = t.draws
   regs : ∀ r, r ≠ .result → σ'.vm.regs r = t.regs r
+  /-- the value returned is in `result` -/
+  result : t.regs .result = σ'.result
 
 /-- the `RETURN` instruction, at any loop depth of a routine -/
-theorem exec_ret {stk : List Frame} {σ : S} {s : State} {pc : Nat} (h : Sim K stk σ s)
+theorem exec_ret {stk : Stk} {σ : S} {s : State} {pc : Nat} (h : Sim K stk σ s)
     (hpc : s.pc = (pc : Int)) (hi : img.code[pc]? = some .ret) (ret : Nat) (rest : List Frame)
-    (hK : K.ret = some (ret, rest)) (x : Val) :
+    (evc : List Val) (hK : K.ret = some (ret, rest, evc)) (x : Val) (hx : s.regs .result = x) :
     Exec img s (RetPost K { σ with result := x }) := by
   have hloc := h.locals.1
   rw [hK] at hloc
   cases hl : σ.locals with
   | none => rw [hl] at hloc; simp at hloc
   | some d =>
-    have hst : s.stack = stk ++ .call d ret :: rest := by
+    have hst : s.stack = stk.frames ++ .call d ret :: rest := by
       rw [h.stack, hl]; simp only [baseOf, hK]
-    have hret := C03_return_any_depth s stk d ret rest h.loops hst
-    have hret' : s.doReturn = { s with stack := rest, pc := (ret : Int), eval := [] } := by
+    have hret := C03_return_any_depth s stk.frames d ret rest h.loops hst
+    have hret' : s.doReturn = { s with stack := rest, pc := (ret : Int), eval := K.base } := by
       rw [hret]
       apply State.ext' <;> try rfl
-      show (match stk.getLast? with
+      show (match stk.frames.getLast? with
         | some (.loop _ hh) => trimEval s.eval hh
-        | _ => s.eval) = []
+        | _ => s.eval) = K.base
       rw [h.eval]
-      split <;> simp [trimEval]
+      exact h.evok.unwind
     apply Exec.step h.running
     apply Exec.done
-    rw [step_eq _ { s with stack := rest, pc := (ret : Int), eval := [] } h.running hpc hi rfl
+    rw [step_eq _ { s with stack := rest, pc := (ret : Int), eval := K.base } h.running hpc hi rfl
       (by simp only [execInstr]; exact hret') h.running]
-    exact ⟨⟨ret, rest, hK, by simp, rfl⟩, h.running, rfl, h.unnamed, h.locals.2, h.status, h.globals,
-      h.constants, h.lights, h.trace, h.defaultColor, h.matrix, h.draws, h.regs⟩
+    exact ⟨⟨ret, rest, evc, hK, by simp, rfl⟩, h.running, rfl, h.unnamed, h.locals.2, h.status, h.umode,
+      h.globals, h.constants, h.lights, h.trace, h.defaultColor, h.matrix, h.draws, h.regs, hx⟩
 
 def StmtRet (img : Image) (K : Ctx) (st : Stmt) (f : Nat) : Prop :=
-  ∀ (σ σ' : S) (s : State) (pc exit : Nat) (stk : List Frame),
+  ∀ (σ σ' : S) (s : State) (pc exit : Nat) (stk : Stk),
     Sim K stk σ s → s.pc = (pc : Int) → CodeAt img pc (resolve (genStmt st) pc exit) →
     execStmt f st σ = (.ret, σ') → Exec img s (RetPost K σ')
 
 /-- `return` / `return v` inside a routine -/
-theorem stmt_ret (f : Nat) (v : Option Rv) (hv : match v with | some rv => RvOK rv | none => True)
-    (ret : Nat) (rest : List Frame) (hK : K.ret = some (ret, rest)) :
+theorem stmt_ret (f : Nat) (ihRv : RvToGoal V img K f) (v : Option Rv)
+    (hv : match v with | some rv => RvC V rv | none => True)
+    (ret : Nat) (rest : List Frame) (evc : List Val) (hK : K.ret = some (ret, rest, evc)) :
     StmtRet img K (.ret v) (f + 1) := by
   intro σ σ' s pc exit stk sim hpc hc h
   simp only [genStmt, resolve_ins] at hc
@@ -82,20 +87,19 @@ theorem stmt_ret (f : Nat) (v : Option Rv) (hv : match v with | some rv => RvOK 
       show s.pc + 1 = _
       rw [hpc]; omega
     rw [e]
-    exact exec_ret hsim rfl hc.tail.head ret rest hK .none
+    exact exec_ret hsim rfl hc.tail.head ret rest evc hK .none (by simp [State.setReg])
   | some rv =>
-    have hv : RvOK rv := hv
+    have hv : RvC V rv := hv
     simp only [execStmt] at h
     split at h
     · rename_i x σ1 hev
       simp only [Prod.mk.injEq, true_and] at h
       subst h
-      obtain ⟨rfl, hex⟩ := exec_toResult rv hv sim hpc hc.left hev
-      refine hex.trans fun t ⟨ht, _⟩ => ?_
-      exact exec_ret ht.2 ht.1 hc.right.head ret rest hK x
+      refine (rv_toResult ihRv rv hv sim hpc hc.left hev).trans fun t ⟨ht, hres⟩ => ?_
+      exact exec_ret ht.2 ht.1 hc.right.head ret rest evc hK x hres
     · rename_i o' hev
       simp only [Prod.mk.injEq] at h
-      have := evalRv_error hv f σ _ hev
+      have := evalRvC_error hev
       rw [h.1] at this
       simp at this
 
@@ -115,12 +119,12 @@ theorem andThen_device_ne_ret {σ σ' : S} {g g' : State → State} {F : S → S
   · exact device_ne_ret h1
 
 /-- the statements without nested blocks never end with `return` -/
-theorem leaf_not_ret (f : Nat) (st : Stmt) (hst : FragStmt st) (σ σ' : S)
+theorem leaf_not_ret (f : Nat) (st : Stmt) (hst : FragStmt V st) (σ σ' : S)
     (h : execStmt (f + 1) st σ = (.ret, σ')) :
     (∃ c t e, st = .ite c t e) ∨ (∃ hd b, st = .repeat_ hd b) ∨ (∃ k ops, st = .action k ops) ∨
     (∃ v, st = .ret v) ∨ (∃ g ps as, st = .call g ps as) := by
-  have hrv : ∀ {v : Rv} {o}, RvOK v → evalRv f v σ = .error o → o ≠ .ret :=
-    fun hv he => (evalRv_error hv f σ _ he).2.2
+  have hrv : ∀ {v : Rv} {o}, evalRv f v σ = .error o → o ≠ .ret :=
+    fun he => (evalRvC_error he).2.2
   cases st with
   | ite c t e => exact Or.inl ⟨c, t, e, rfl⟩
   | repeat_ hd b => exact Or.inr (Or.inl ⟨hd, b, rfl⟩)
@@ -135,7 +139,7 @@ theorem leaf_not_ret (f : Nat) (st : Stmt) (hst : FragStmt st) (σ σ' : S)
     · simp at h
     · rename_i o he
       simp only [Prod.mk.injEq] at h
-      exact hrv hst.2 he h.1
+      exact hrv he h.1
   | assign n v =>
     exfalso
     simp only [execStmt] at h
@@ -143,7 +147,7 @@ theorem leaf_not_ret (f : Nat) (st : Stmt) (hst : FragStmt st) (σ σ' : S)
     · simp at h
     · rename_i o he
       simp only [Prod.mk.injEq] at h
-      exact hrv hst he h.1
+      exact hrv he h.1
   | print v =>
     exfalso
     simp only [execStmt] at h
@@ -151,7 +155,7 @@ theorem leaf_not_ret (f : Nat) (st : Stmt) (hst : FragStmt st) (σ σ' : S)
     · simp at h
     · rename_i o he
       simp only [Prod.mk.injEq] at h
-      exact hrv hst he h.1
+      exact hrv he h.1
   | println v =>
     exfalso
     cases v with
@@ -162,7 +166,7 @@ theorem leaf_not_ret (f : Nat) (st : Stmt) (hst : FragStmt st) (σ σ' : S)
       · simp at h
       · rename_i o he
         simp only [Prod.mk.injEq] at h
-        exact hrv (show RvOK rv from hst) he h.1
+        exact hrv he h.1
   | get name =>
     exfalso
     simp only [execStmt] at h
@@ -170,7 +174,7 @@ theorem leaf_not_ret (f : Nat) (st : Stmt) (hst : FragStmt st) (σ σ' : S)
     · exact device_ne_ret h
     · rename_i o he
       simp only [Prod.mk.injEq] at h
-      exact hrv hst he h.1
+      exact hrv he h.1
   | printf fmt as =>
     exfalso
     simp only [execStmt] at h
@@ -185,7 +189,7 @@ theorem leaf_not_ret (f : Nat) (st : Stmt) (hst : FragStmt st) (σ σ' : S)
     split at h
     · rename_i o he
       simp only [Prod.mk.injEq] at h
-      exact (evalMatrixRanges_error hst.1 hst.2 f cf _ _ he).2.2 h.1
+      exact (evalMatrixRanges_error f cf _ _ he).2.2 h.1
     · exact device_ne_ret h
   | units m => exfalso; simp only [execStmt] at h; exact device_ne_ret h
   | wait => exfalso; simp only [execStmt] at h; exact device_ne_ret h
@@ -211,33 +215,33 @@ theorem leaf_not_ret (f : Nat) (st : Stmt) (hst : FragStmt st) (σ σ' : S)
 
 /-! ### `return` from inside blocks, `if`, operands -/
 
-def StmtsRet (img : Image) (K : Ctx) (f : Nat) : Prop := ∀ st, FragStmt st → StmtRet img K st f
+def StmtsRet (V : String → Prop) (img : Image) (K : Ctx) (f : Nat) : Prop := ∀ st, FragStmt V st → StmtRet img K st f
 
-def BlockRet (img : Image) (K : Ctx) (f : Nat) : Prop :=
-  ∀ b, FragBlock b → ∀ (σ σ' : S) (s : State) (pc exit : Nat) (stk : List Frame),
+def BlockRet (V : String → Prop) (img : Image) (K : Ctx) (f : Nat) : Prop :=
+  ∀ b, FragBlock V b → ∀ (σ σ' : S) (s : State) (pc exit : Nat) (stk : Stk),
     Sim K stk σ s → s.pc = (pc : Int) → CodeAt img pc (resolve (genBlock b) pc exit) →
     execBlock f b σ = (.ret, σ') → Exec img s (RetPost K σ')
 
-def OperandRet (img : Image) (K : Ctx) (f : Nat) : Prop :=
-  ∀ (k : ActKind) (op : Operand_), FragOperand op →
-  ∀ (σ σ' : S) (s : State) (pc exit : Nat) (stk : List Frame),
+def OperandRet (V : String → Prop) (img : Image) (K : Ctx) (f : Nat) : Prop :=
+  ∀ (k : ActKind) (op : Operand_), FragOperand V op →
+  ∀ (σ σ' : S) (s : State) (pc exit : Nat) (stk : Stk),
     Sim K stk σ s → s.pc = (pc : Int) →
     CodeAt img pc (resolve (genOperand op ++ ins [opcodeOf k]) pc exit) →
     execOperand f k op σ = (.ret, σ') → Exec img s (RetPost K σ')
 
-def OperandsRet (img : Image) (K : Ctx) (f : Nat) : Prop :=
-  ∀ (k : ActKind) (ops : Operands), FragOperands ops →
-  ∀ (σ σ' : S) (s : State) (pc exit : Nat) (stk : List Frame),
+def OperandsRet (V : String → Prop) (img : Image) (K : Ctx) (f : Nat) : Prop :=
+  ∀ (k : ActKind) (ops : Operands), FragOperands V ops →
+  ∀ (σ σ' : S) (s : State) (pc exit : Nat) (stk : Stk),
     Sim K stk σ s → s.pc = (pc : Int) →
     CodeAt img pc (resolve (genOperands k ops) pc exit) →
     execOperands f k ops σ = (.ret, σ') → Exec img s (RetPost K σ')
 
-theorem block_ret_zero : BlockRet img K 0 := by
+theorem block_ret_zero : BlockRet V img K 0 := by
   intro b _ σ σ' s pc exit stk _ _ _ h
   simp [execBlock] at h
 
-theorem block_ret_step (f : Nat) (ihS : StmtsGoal img K f) (ihSR : StmtsRet img K f)
-    (ihBR : BlockRet img K f) : BlockRet img K (f + 1) := by
+theorem block_ret_step (f : Nat) (ihS : StmtsGoal V img K f) (ihSR : StmtsRet V img K f)
+    (ihBR : BlockRet V img K f) : BlockRet V img K (f + 1) := by
   intro b hb σ σ' s pc exit stk sim hpc hc h
   cases b with
   | nil => simp [execBlock] at h
@@ -254,11 +258,11 @@ theorem block_ret_step (f : Nat) (ihS : StmtsGoal img K f) (ihSR : StmtsRet img 
       exact ihBR rest hb.2 σ1 σ' t _ exit stk ht.2 ht.1 hcr hrest
     · exact ihSR st hb.1 σ σ' s pc exit stk sim hpc hc.left hst
 
-theorem operand_ret_zero : OperandRet img K 0 := by
+theorem operand_ret_zero : OperandRet V img K 0 := by
   intro k op _ σ σ' s pc exit stk _ _ _ h
   simp [execOperand] at h
 
-theorem operand_ret_step (f : Nat) (ihBR : BlockRet img K f) : OperandRet img K (f + 1) := by
+theorem operand_ret_step (f : Nat) (ihBR : BlockRet V img K f) : OperandRet V img K (f + 1) := by
   intro k op hop σ σ' s pc exit stk sim hpc hc h
   cases op with
   | light n =>
@@ -285,7 +289,7 @@ theorem operand_ret_step (f : Nat) (ihBR : BlockRet img K f) : OperandRet img K 
     split at h
     · rename_i o he
       simp only [Prod.mk.injEq] at h
-      exact (evalRange_error hop f _ _ _ _ he).2.2 h.1
+      exact (evalRange_error f _ _ _ _ he).2.2 h.1
     · exact device_ne_ret h
   | matrixInline n rows cols cf =>
     exfalso
@@ -294,7 +298,7 @@ theorem operand_ret_step (f : Nat) (ihBR : BlockRet img K f) : OperandRet img K 
     · split at h
       · rename_i o he
         simp only [Prod.mk.injEq] at h
-        exact (evalMatrixRanges_error hop.1 hop.2 f cf _ _ he).2.2 h.1
+        exact (evalMatrixRanges_error f cf _ _ he).2.2 h.1
       · rw [andThen_eq] at h
         exact andThen_device_ne_ret h
     · exact device_ne_ret h1
@@ -315,12 +319,12 @@ theorem operand_ret_step (f : Nat) (ihBR : BlockRet img K f) : OperandRet img K 
       · exact ihBR body hop s1 σ' t1 _ exit stk ht1.2 ht1.1 hcb hbody
     · exact (device_ne_ret h1).elim
 
-theorem operands_ret_zero : OperandsRet img K 0 := by
+theorem operands_ret_zero : OperandsRet V img K 0 := by
   intro k op _ σ σ' s pc exit stk _ _ _ h
   simp [execOperands] at h
 
-theorem operands_ret_step (f : Nat) (ihO : OperandGoal img K f) (ihOR : OperandRet img K f)
-    (ihOsR : OperandsRet img K f) : OperandsRet img K (f + 1) := by
+theorem operands_ret_step (f : Nat) (ihO : OperandGoal V img K f) (ihOR : OperandRet V img K f)
+    (ihOsR : OperandsRet V img K f) : OperandsRet V img K (f + 1) := by
   intro k ops hops σ σ' s pc exit stk sim hpc hc h
   cases ops with
   | nil => simp [execOperands] at h
@@ -356,11 +360,11 @@ theorem loopBody_ret {r : Outcome × S} {Kf : S → Outcome × S} {σ' : S}
   | ret => simp only [loopBody] at h; exact Or.inr h
   | _ => simp [loopBody] at h
 
-def WhileRet (img : Image) (K : Ctx) (f : Nat) : Prop :=
-  ∀ (c : Option Rv) (body : Block), CondOK c → FragBlock body →
-  ∀ (σ σ' : S) (s : State) (top : Nat) (stk : List Frame)
-    (vars : List (LoopVar × Val)) (ht : Nat) (off : Int),
-    Sim K (.loop vars ht :: stk) σ s → s.pc = (top : Int) →
+def WhileRet (V : String → Prop) (img : Image) (K : Ctx) (f : Nat) : Prop :=
+  ∀ (c : Option Rv) (body : Block), CondOK V c → FragBlock V body →
+  ∀ (σ σ' : S) (s : State) (top : Nat) (stk : Stk)
+    (vars : List (LoopVar × Val)) (extra : List Val) (off : Int),
+    Sim K (stk.inner vars extra) σ s → s.pc = (top : Int) →
     CodeAt img top (testCode c ++ [.jump .ifFalse (((genBlock body).length : Nat) + 2)] ++
       resolve (genBlock body) (top + (testCode c).length + 1)
         ((top + (testCode c).length + 1 + (genBlock body).length + 1 : Nat) : Int) ++
@@ -368,13 +372,13 @@ def WhileRet (img : Image) (K : Ctx) (f : Nat) : Prop :=
     ((top + (testCode c).length + 1 + (genBlock body).length : Nat) : Int) + off = (top : Int) →
     execWhile f c body σ = (.ret, σ') → Exec img s (RetPost K σ')
 
-theorem while_ret_zero : WhileRet img K 0 := by
-  intro c body _ _ σ σ' s top stk vars ht off _ _ _ _ h
+theorem while_ret_zero : WhileRet V img K 0 := by
+  intro c body _ _ σ σ' s top stk vars extra off _ _ _ _ h
   simp [execWhile] at h
 
-theorem while_ret_step (f : Nat) (ihB : BlockGoal img K f) (ihBR : BlockRet img K f)
-    (ihW : WhileRet img K f) : WhileRet img K (f + 1) := by
-  intro c body hcnd hb σ σ' s top stk vars ht off sim hpc hc hoff h
+theorem while_ret_step (f : Nat) (ihRv : RvToGoal V img K f) (ihB : BlockGoal V img K f) (ihBR : BlockRet V img K f)
+    (ihW : WhileRet V img K f) : WhileRet V img K (f + 1) := by
+  intro c body hcnd hb σ σ' s top stk vars extra off sim hpc hc hoff h
   rw [execWhile_succ] at h
   have hct := hc.left.left.left.left
   have hcj := hc.left.left.left.right.head
@@ -384,13 +388,13 @@ theorem while_ret_step (f : Nat) (ihB : BlockGoal img K f) (ihBR : BlockRet img 
   split at h
   · rename_i o' he
     simp only [Prod.mk.injEq] at h
-    exact ((semTest_error hcnd f σ _ he).2.2 h.1).elim
+    exact ((semTest_error f σ _ he).2.2 h.1).elim
   · simp at h
   · rename_i s1 he
-    obtain ⟨rfl, hex⟩ := exec_test c hcnd sim hpc hct he
-    have hjmp : ∀ t0, (At K (top + (testCode c).length) (.loop vars ht :: stk) [] s1 t0 ∧
+    have hex := exec_test ihRv c hcnd sim hpc hct he
+    have hjmp : ∀ t0, (At K (top + (testCode c).length) (stk.inner vars extra) [] s1 t0 ∧
         (t0.regs .result).truthy = true) →
-        Exec img t0 (At K (top + (testCode c).length + 1) (.loop vars ht :: stk) [] s1) := by
+        Exec img t0 (At K (top + (testCode c).length + 1) (stk.inner vars extra) [] s1) := by
       intro t0 ⟨ht0, hres⟩
       exact exec_jump .ifFalse _ _ (by simp) ht0.2 ht0.1 hcj (by simp [hres])
     refine (hex.trans hjmp).trans fun t1 ht1 => ?_
@@ -400,78 +404,93 @@ theorem while_ret_step (f : Nat) (ihB : BlockGoal img K f) (ihBR : BlockRet img 
       simp only [Target] at ht2
       refine (exec_jump .always off top (by simp) ht2.2 ht2.1 (idx hcjb) (by simpa using hoff)).trans
         fun t3 ht3 => ?_
-      exact ihW c body hcnd hb s2 σ' t3 top stk vars ht off ht3.2 ht3.1 hc hoff hrest
+      exact ihW c body hcnd hb s2 σ' t3 top stk vars extra off ht3.2 ht3.1 hc hoff hrest
     · exact ihBR body hb s1 σ' t1 _ _ _ ht1.2 ht1.1 (cat hcb) hbody
 
-def CountRet (img : Image) (K : Ctx) (f : Nat) : Prop :=
-  ∀ (body : Block), FragBlock body →
-  ∀ (σ σ' : S) (s : State) (top : Nat) (stk : List Frame)
-    (vars : List (LoopVar × Val)) (ht : Nat) (cnt : Val) (q : Rat) (fl : Bool) (off : Int),
-    Sim K (.loop vars ht :: stk) σ s → s.pc = (top : Int) →
-    getVar vars .counter = cnt → cnt.asNum = some (q, fl) →
-    CodeAt img top (counterTest ++ [.jump .ifFalse (((genBlock body).length + 4 : Nat) + 2)] ++
-      (resolve (genBlock body) (top + 5) ((top + 5 + (genBlock body).length + 4 + 1 : Nat) : Int) ++
-        loopPost none) ++
+def CountRet (V : String → Prop) (img : Image) (K : Ctx) (f : Nat) : Prop :=
+  ∀ (body : Block), FragBlock V body → ∀ (lv : Option String) (ix : Option (String × Val))
+    (names : List String) (σ σ' : S) (s : State) (top : Nat) (stk : Stk)
+    (vars : List (LoopVar × Val)) (cnt : Val) (q : Rat) (fl : Bool) (off : Int),
+    Sim K (stk.inner vars (pendOf lv names)) σ s → s.pc = (top : Int) →
+    getVar vars .counter = cnt → cnt.asNum = some (q, fl) → passes q = names.length →
+    (∀ p ∈ ix, getVar vars .incr = p.2) →
+    CodeAt img top (counterTest ++
+      [.jump .ifFalse (((bodyPreOf lv).length + (genBlock body).length + (postOf ix).length : Nat) + 2)] ++
+      (bodyPreOf lv ++ resolve (genBlock body) (top + 5 + (bodyPreOf lv).length)
+        ((top + 5 + ((bodyPreOf lv).length + (genBlock body).length + (postOf ix).length) + 1 : Nat) : Int) ++
+        postOf ix) ++
       [.jump .always off] ++ [.endLoop]) →
-    ((top + 5 + (genBlock body).length + 4 : Nat) : Int) + off = (top : Int) →
-    execPasses f (List.replicate (passes q) []) body σ = (.ret, σ') → Exec img s (RetPost K σ')
+    ((top + 5 + ((bodyPreOf lv).length + (genBlock body).length + (postOf ix).length) : Nat) : Int) + off =
+      (top : Int) →
+    execPasses f (bindsOf lv names) ix body σ = (.ret, σ') → Exec img s (RetPost K σ')
 
-theorem count_ret_zero : CountRet img K 0 := by
-  intro body _ σ σ' s top stk vars ht cnt q fl off _ _ _ _ _ _ h
+theorem count_ret_zero : CountRet V img K 0 := by
+  intro body _ lv ix names σ σ' s top stk vars cnt q fl off _ _ _ _ _ _ _ _ h
   simp [execPasses] at h
 
-theorem count_ret_step (f : Nat) (ihB : BlockGoal img K f) (ihBR : BlockRet img K f)
-    (ihC : CountRet img K f) : CountRet img K (f + 1) := by
-  intro body hb σ σ' s top stk vars ht cnt q fl off sim hpc hcnt hnum hc hoff h
+theorem count_ret_step (f : Nat) (ihB : BlockGoal V img K f) (ihBR : BlockRet V img K f)
+    (ihC : CountRet V img K f) : CountRet V img K (f + 1) := by
+  intro body hb lv ix names σ σ' s top stk vars cnt q fl off sim hpc hcnt hnum hlenq hincr hc hoff h
   have hct := hc.left.left.left.left
   have hcj := hc.left.left.left.right.head
-  have hcb := hc.left.left.right.left
+  have hcpre := hc.left.left.right.left.left
+  have hcb := hc.left.left.right.left.right
   have hcp := hc.left.left.right.right
   have hcjb := hc.left.right.head
   have hlen : counterTest.length = 4 := rfl
-  have hlenp : (loopPost none).length = 4 := rfl
-  simp only [List.length_append, List.length_cons, List.length_nil, resolve_length, hlen, hlenp]
-    at hcj hcb hcp hcjb
+  simp only [List.length_append, List.length_cons, List.length_nil, resolve_length, hlen]
+    at hcj hcpre hcb hcp hcjb
   have hne : cnt = .none → False := by rintro rfl; simp [Val.asNum] at hnum
-  have hex := exec_counterTest vars ht cnt q fl sim hpc hct hcnt hnum
-  by_cases hq : 0 < q
-  · rw [passes_pos q hq, List.replicate_succ, execPasses_succ] at h
-    simp only [List.foldl_nil] at h
-    have hjmp : ∀ t0, (At K (top + 4) (.loop vars ht :: stk) [] σ t0 ∧
+  have hex := exec_counterTest vars _ cnt q fl sim hpc hct hcnt hnum
+  cases names with
+  | cons n rest =>
+    have hq : 0 < q := by
+      apply Classical.byContradiction
+      intro hc'
+      rw [passes_nonpos q hc'] at hlenq
+      simp at hlenq
+    rw [bindsOf_cons, execPasses_succ, foldl_bind] at h
+    have hjmp : ∀ t0, (At K (top + 4) (stk.inner vars (pendOf lv (n :: rest))) [] σ t0 ∧
         t0.regs .result = .bool (decide (0 < q))) →
-        Exec img t0 (At K (top + 5) (.loop vars ht :: stk) [] σ) := by
+        Exec img t0 (At K (top + 5) (stk.inner vars (pendOf lv (n :: rest))) [] σ) := by
       intro t0 ⟨ht0, hres⟩
       exact exec_jump .ifFalse _ _ (by simp) ht0.2 ht0.1 (idx hcj)
         (by simp [hres, hq, Val.truthy]; omega)
-    refine (hex.trans hjmp).trans fun t1 ht1 => ?_
+    refine ((hex.trans hjmp).trans fun t0 ht0 =>
+      exec_bodyPre lv n rest vars ht0.2 ht0.1 (hcpre.cast (by omega))).trans fun t1 ht1 => ?_
     rcases loopBody_ret h with ⟨s2, hbody, hrest⟩ | hbody
-    · obtain ⟨c1, fl1, hsub1, hc1⟩ := sub_one_num cnt q fl hnum
-      refine (ihB body hb σ s2 .normal t1 _ _ _ ht1.2 ht1.1 (cat hcb) hbody (Or.inl rfl)).trans
+    · obtain ⟨s3, hnext, hrest⟩ := (stepIdx_cases hrest).resolve_right (by simp)
+      obtain ⟨c1, fl1, hsub1, hc1⟩ := sub_one_num cnt q fl hnum
+      refine (ihB body hb _ s2 .normal t1 _ _ _ ht1.2 ht1.1 (hcb.cast (by omega)) hbody (Or.inl rfl)).trans
         fun t2 ht2 => ?_
       simp only [Target] at ht2
-      refine (exec_loopPost vars ht cnt c1 ht2.2 ht2.1 (cat hcp) hcnt hne hsub1).trans fun t3 ht3 => ?_
-      refine (exec_jump .always off top (by simp) ht3.2 ht3.1 (idx hcjb) (by simpa using hoff)).trans
-        fun t4 ht4 => ?_
-      exact ihC body hb s2 σ' t4 top stk _ ht c1 (q - 1) fl1 off ht4.2 ht4.1
-        (getVar_putVar vars .counter c1) hc1 hc hoff hrest
-    · exact ihBR body hb σ σ' t1 _ _ _ ht1.2 ht1.1 (cat hcb) hbody
-  · rw [passes_nonpos q hq] at h
-    simp [execPasses] at h
+      refine (exec_passEnd ix vars _ cnt c1 s2 s3 ht2.2 ht2.1 (hcp.cast (by omega)) hcnt hne hsub1 hincr
+        hnext).trans fun t3 ht3 => ?_
+      refine (exec_jump .always off top (by simp) ht3.2 ht3.1 (idx hcjb)
+        (by rw [← hoff]; congr 2; omega)).trans fun t4 ht4 => ?_
+      have hlen' : passes (q - 1) = rest.length := by
+        rw [passes_pos q hq] at hlenq
+        simpa using hlenq
+      exact ihC body hb lv ix rest s3 σ' t4 top stk _ c1 (q - 1) fl1 off ht4.2 ht4.1
+        (getVar_putVar vars .counter c1) hc1 hlen'
+        (fun p hp => by rw [getVar_putVar_other _ _ _ _ (by decide)]; exact hincr p hp) hc hoff hrest
+    · exact ihBR body hb _ σ' t1 _ _ _ ht1.2 ht1.1 (hcb.cast (by omega)) hbody
+  | nil => simp [bindsOf, execPasses] at h
 
-def LoopRet (img : Image) (K : Ctx) (f : Nat) : Prop :=
-  ∀ (hd : LoopHdr) (body : Block), LoopHdrOK hd → FragBlock body →
-  ∀ (σ σ' : S) (s : State) (pc exit : Nat) (stk : List Frame),
+def LoopRet (V : String → Prop) (img : Image) (K : Ctx) (f : Nat) : Prop :=
+  ∀ (hd : LoopHdr) (body : Block), LoopHdrOK V hd → FragBlock V body →
+  ∀ (σ σ' : S) (s : State) (pc exit : Nat) (stk : Stk),
     Sim K stk σ s → s.pc = (pc : Int) →
     CodeAt img pc (resolve (genLoop hd (genBlock body)) pc exit) →
     execLoop f hd body σ = (.ret, σ') → Exec img s (RetPost K σ')
 
-theorem loop_ret_zero : LoopRet img K 0 := by
+theorem loop_ret_zero : LoopRet V img K 0 := by
   intro hd body _ _ σ σ' s pc exit stk _ _ _ h
   simp [execLoop] at h
 
 
-theorem loop_while_ret (f : Nat) (ihW : WhileRet img K f) (c : Option Rv) (hcnd : CondOK c) (body : Block)
-    (hb : FragBlock body) (σ σ' : S) (s : State) (pc exit : Nat) (stk : List Frame)
+theorem loop_while_ret (f : Nat) (ihW : WhileRet V img K f) (c : Option Rv) (hcnd : CondOK V c) (body : Block)
+    (hb : FragBlock V body) (σ σ' : S) (s : State) (pc exit : Nat) (stk : Stk)
     (sim : Sim K stk σ s) (hpc : s.pc = (pc : Int))
     (hc : CodeAt img pc (resolve (assembleLoop [] (testCode c) [] (genBlock body) []) pc exit))
     (h : execWhile f c body σ = (.ret, σ')) : Exec img s (RetPost K σ') := by
@@ -492,65 +511,208 @@ theorem loop_while_ret (f : Nat) (ihW : WhileRet img K f) (c : Option Rv) (hcnd 
     rw [e1, e2] at h2
     exact h2
   refine (exec_loop sim hpc hloop).trans fun t ht => ?_
-  exact ihW c body hcnd hb σ σ' t (pc + 1) stk [] 0 _ ht.2 ht.1 hrest (by omega) h
+  exact ihW c body hcnd hb σ σ' t (pc + 1) stk [] [] _ ht.2 ht.1 hrest (by omega) h
 
-theorem loop_count_ret (f : Nat) (ihC : CountRet img K f) (n : Rv) (hn : RvOK n) (body : Block)
-    (hb : FragBlock body) (σ σ' : S) (s : State) (pc exit : Nat) (stk : List Frame)
+/-- `return` out of a counted loop -/
+theorem loop_counted_ret (f : Nat) (ihC : CountRet V img K f) (pre : List Instr) (lv : Option String)
+    (ix : Option (String × Val)) (body : Block) (hb : FragBlock V body) (names : List String)
+    (σ σ1 σ' : S) (s : State) (pc exit : Nat)
+    (stk : Stk) (sim : Sim K stk σ s) (hpc : s.pc = (pc : Int))
+    (hc : CodeAt img pc (resolve (assembleLoop pre counterTest (bodyPreOf lv) (genBlock body) (postOf ix))
+      pc exit))
+    (hpre : CodeAt img (pc + 1) pre → ∀ t, At K (pc + 1) (stk.inner [] []) [] σ t →
+      Exec img t (fun t' => ∃ vars cnt q fl,
+        At K (pc + 1 + pre.length) (stk.inner vars (pendOf lv names)) [] σ1 t' ∧
+        getVar vars .counter = cnt ∧ cnt.asNum = some (q, fl) ∧ (∀ p ∈ ix, getVar vars .incr = p.2) ∧
+        passes q = names.length))
+    (h : execPasses f (bindsOf lv names) ix body σ1 = (.ret, σ')) : Exec img s (RetPost K σ') := by
+  obtain ⟨hloop, hcpre, hrest⟩ := counted_rest pre lv ix body hc
+  refine ((exec_loop sim hpc hloop).trans (hpre hcpre)).trans
+    fun t' ⟨vars, cnt, q, fl, ht', hcnt, hnum, hincr, hk⟩ => ?_
+  exact ihC body hb lv ix names σ1 σ' t' _ stk vars cnt q fl _ ht'.2 ht'.1 hcnt hnum hk hincr hrest
+    (by omega) h
+
+theorem loop_count_ret (f : Nat) (ihRv : RvToGoal V img K f) (ihC : CountRet V img K f) (n : Rv) (hn : RvC V n)
+    (body : Block)
+    (hb : FragBlock V body) (σ σ' : S) (s : State) (pc exit : Nat) (stk : Stk)
     (sim : Sim K stk σ s) (hpc : s.pc = (pc : Int))
     (hc : CodeAt img pc (resolve (genLoop (.count n) (genBlock body)) pc exit))
     (h : execLoop (f + 1) (.count n) body σ = (.ret, σ')) : Exec img s (RetPost K σ') := by
   simp only [genLoop] at hc
-  rw [resolve_assembleLoop] at hc
-  have hlen : counterTest.length = 4 := rfl
-  have hlenp : (loopPost none).length = 4 := rfl
-  simp only [List.nil_append, List.length_nil, Nat.add_zero, Nat.zero_add, hlen, hlenp] at hc
   simp only [execLoop] at h
   split at h
   · rename_i o' he
     simp only [Prod.mk.injEq] at h
-    exact ((evalRv_error hn f σ _ he).2.2 h.1).elim
+    exact ((evalRvC_error he).2.2 h.1).elim
   · rename_i x σ1 he
     split at h
     · rename_i q hq
-      obtain ⟨fl, hnum⟩ : ∃ fl, x.asNum = some (q, fl) := by
-        simp only [numToCount, Option.map_eq_some_iff] at hq
-        obtain ⟨⟨q', fl⟩, h1, h2⟩ := hq
-        exact ⟨fl, by rw [h1]; simp at h2; rw [h2]⟩
-      have h' : execPasses f (List.replicate (passes q) []) body σ1 = (.ret, σ') := by
-        rw [← range_map_nil]; exact h
-      have hloop := hc.left.left.left.left.left.head
-      have hpre := hc.left.left.left.left.left.tail
-      have hrest : CodeAt img (pc + 1 + (genRv n (.to counter)).length)
-          (counterTest ++ [.jump .ifFalse (((genBlock body).length + 4 : Nat) + 2)] ++
-            (resolve (genBlock body) (pc + 1 + (genRv n (.to counter)).length + 5)
-              ((pc + 1 + (genRv n (.to counter)).length + 5 + (genBlock body).length + 4 + 1 : Nat) : Int) ++
-              loopPost none) ++
-            [.jump .always (((1 + (genRv n (.to counter)).length : Nat) : Int) -
-              ((1 + (genRv n (.to counter)).length + 4 + 1 + ((genBlock body).length + 4) : Nat) : Int))] ++
-            [.endLoop]) := by
-        have e1 : pc + (1 + (genRv n (.to counter)).length + 4 + 1) =
-            pc + 1 + (genRv n (.to counter)).length + 5 := by omega
-        have e2 : pc + (1 + (genRv n (.to counter)).length + 4 + 1 + ((genBlock body).length + 4) + 1) =
-            pc + 1 + (genRv n (.to counter)).length + 5 + (genBlock body).length + 4 + 1 := by omega
-        rw [e1, e2] at hc
-        have := hc
-        simp only [List.append_assoc, List.cons_append, List.nil_append] at this ⊢
-        have hh := (CodeAt.right (a := Instr.loop :: genRv n (.to counter)) this)
-        simp only [List.length_cons] at hh
-        have e3 : pc + ((genRv n (.to counter)).length + 1) = pc + 1 + (genRv n (.to counter)).length := by
-          omega
-        rw [e3] at hh
-        exact hh
-      refine (exec_loop sim hpc hloop).trans fun t ht => ?_
-      obtain ⟨rfl, hcnt⟩ := exec_toCounter n hn [] 0 ht.2 ht.1 hpre he
-      refine hcnt.trans fun t2 ht2 => ?_
-      exact ihC body hb σ1 σ' t2 _ stk _ 0 x q fl _ ht2.2 ht2.1 (getVar_putVar [] .counter x) hnum hrest
-        (by omega) h'
+      obtain ⟨fl, hnum⟩ := numToCount_num hq
+      rw [passCount_eq, ← bindsOf_none] at h
+      refine loop_counted_ret f ihC _ none none body hb _ σ σ1 σ' s pc exit stk sim hpc hc ?_ h
+      intro hcpre t ht
+      have hcnt := rv_toLoopVar ihRv n hn .counter [] _ ht.2 ht.1 hcpre he
+      exact hcnt.mono fun t' ht' => ⟨_, x, q, fl, ht', getVar_putVar [] .counter x, hnum, by simp,
+        (passes_replicate _).symm⟩
     · simp at h
 
-theorem loop_ret_step (f : Nat) (ihW : WhileRet img K f) (ihC : CountRet img K f) :
-    LoopRet img K (f + 1) := by
+theorem loop_range_ret (f : Nat) (ihRv : RvToGoal V img K f) (ihC : CountRet V img K f) (v : String) (a b : Rv)
+    (ha : RvC V a) (hbd : RvC V b)
+    (body : Block) (hb : FragBlock V body) (σ σ' : S) (s : State) (pc exit : Nat)
+    (stk : Stk) (sim : Sim K stk σ s) (hpc : s.pc = (pc : Int))
+    (hc : CodeAt img pc (resolve (genLoop (.range v a b) (genBlock body)) pc exit))
+    (h : execLoop (f + 1) (.range v a b) body σ = (.ret, σ')) : Exec img s (RetPost K σ') := by
+  simp only [genLoop] at hc
+  simp only [execLoop] at h
+  split at h
+  · rename_i o' he
+    simp only [Prod.mk.injEq] at h
+    exact ((evalRvC_error he).2.2 h.1).elim
+  · rename_i x σ1 hea
+    split at h
+    · rename_i o' he
+      simp only [Prod.mk.injEq] at h
+      exact ((evalRvC_error he).2.2 h.1).elim
+    · rename_i y σ2 heb
+      split at h
+      · rename_i p q hp hq
+        rw [passCount_eq, ← bindsOf_none] at h
+        refine loop_counted_ret f ihC _ none (some (v, if q < p then .int (-1) else .int 1)) body hb _ σ
+          (σ2.assign v x) σ' s pc exit stk sim hpc hc ?_ h
+        intro hcpre t ht
+        simp only [indexVarRange, if_true] at hcpre ⊢
+        refine (rv_toLoopVar ihRv a ha .first [] _ ht.2 ht.1 hcpre.left.left.left hea).trans fun t1 ht1 => ?_
+        refine (rv_toLoopVar ihRv b hbd .last _ _ ht1.2 ht1.1 hcpre.left.left.right heb).trans fun t2 ht2 => ?_
+        have hfirst : getVar (putVar (putVar [] .first x) .last y) .first = x := by
+          rw [getVar_putVar_other _ _ _ _ (by decide), getVar_putVar]
+        have hlast : getVar (putVar (putVar [] .first x) .last y) .last = y := getVar_putVar _ _ _
+        have hm := hcpre.left.right.head
+        simp only [List.length_append] at hm
+        refine (exec_moveLVVar .first v ht2.2 ht2.1 (idx hm)).trans fun t3 ht3 => ?_
+        rw [hfirst] at ht3
+        have hcc := hcpre.right
+        simp only [List.length_append, List.length_cons, List.length_nil] at hcc
+        refine (exec_calcCounter x y p q ht3.2 ht3.1 (cat hcc) hfirst hlast hp hq).mono
+          fun t4 ⟨vars', fl, ht4, hcnt, hinc⟩ => ?_
+        refine ⟨vars', _, _, fl, ⟨?_, ht4.2⟩, rfl, hcnt, ?_, (passes_replicate _).symm⟩
+        · rw [ht4.1]; simp [calcCounter, testOp, incCounter]; omega
+        · intro p' hp'
+          simp only [Option.mem_def, Option.some.injEq] at hp'
+          subst hp'
+          exact hinc
+      · simp at h
+
+theorem loop_with_ret (f : Nat) (ihRvs : RvToGoals V img K f) (ihC : CountRet V img K f) (n : Rv) (hn : RvC V n)
+    (wc : WithClause)
+    (hw : WithOK V wc) (body : Block) (hb : FragBlock V body) (σ σ' : S) (s : State)
+    (pc exit : Nat) (stk : Stk) (sim : Sim K stk σ s) (hpc : s.pc = (pc : Int))
+    (hc : CodeAt img pc (resolve (assembleLoop (genRv n (.to counter) ++ withCode wc) counterTest []
+      (genBlock body) (loopPost (some (withVarOf wc)))) pc exit))
+    (h : (match evalRv f n σ with
+        | .error o => (o, σ)
+        | .ok (cnt, s1) =>
+          match numToCount cnt with
+          | none => (.fault "count is not a number", s1)
+          | some q =>
+            match evalWith f wc cnt s1 with
+            | .error o => (o, s1)
+            | .ok (none, s2) => (.fault "arithmetic error", s2)
+            | .ok (some i, s2) =>
+              execPasses f (List.replicate (passCount q) []) (some (withVarOf wc, i)) body s2) = (.ret, σ')) :
+    Exec img s (RetPost K σ') := by
+  split at h
+  · rename_i o' he
+    simp only [Prod.mk.injEq] at h
+    exact ((evalRvC_error he).2.2 h.1).elim
+  · rename_i cnt σ1 he
+    split at h
+    · simp at h
+    · rename_i q hq
+      obtain ⟨fl, hnum⟩ := numToCount_num hq
+      split at h
+      · rename_i o' hew
+        simp only [Prod.mk.injEq] at h
+        exact ((evalWith_error f cnt σ1 _ hew).2.2 h.1).elim
+      · simp at h
+      · rename_i i σ2 hew
+        rw [passCount_eq, ← bindsOf_none] at h
+        refine loop_counted_ret f ihC _ none (some (withVarOf wc, i)) body hb _ σ σ2 σ' s pc exit stk sim hpc hc
+          ?_ h
+        intro hcpre t ht
+        refine (rv_toLoopVar (ihRvs f (Nat.le_refl f)) n hn .counter [] _ ht.2 ht.1 hcpre.left he).trans
+          fun t1 ht1 => ?_
+        refine (exec_with ihRvs wc hw cnt q fl ht1.2 ht1.1 hcpre.right (getVar_putVar [] .counter cnt) hnum hew).mono
+          fun t2 ⟨vars', ht2, hc2, hi2⟩ => ?_
+        refine ⟨vars', cnt, q, fl, ⟨?_, ht2.2⟩, hc2, hnum, ?_, (passes_replicate _).symm⟩
+        · rw [ht2.1]; simp only [List.length_append, counter]; omega
+        · intro p' hp'
+          simp only [Option.mem_def, Option.some.injEq] at hp'
+          subst hp'
+          exact hi2
+
+/-- `return` out of a loop over names -/
+theorem loop_names_ret (g : Nat) (ihRvs : RvToGoals V img K g) (ihC : CountRet V img K g) (disc : List Instr)
+    (lv : String)
+    (w : Option WithClause) (hw : OWithOK V w) (body : Block) (hb : FragBlock V body) (names : List String)
+    (σ σd σ' : S) (s : State) (pc exit : Nat) (stk : Stk)
+    (sim : Sim K stk σ s) (hpc : s.pc = (pc : Int))
+    (hc : CodeAt img pc (resolve (assembleLoop ([.moveq (.int 0) counter] ++ disc ++ withClause w) counterTest
+      [.pop (.var lv)] (genBlock body) (loopPost (withVar w))) pc exit))
+    (hdisc : ∀ (vars : List (LoopVar × Val)) (t : State) (p : Nat), Sim K (stk.inner vars []) σ t →
+      t.pc = (p : Int) → CodeAt img p disc → getVar vars .counter = .int 0 →
+      Exec img t (fun t' => ∃ vars', At K (p + disc.length) (stk.inner vars' (names.map .str)) [] σd t' ∧
+        getVar vars' .counter = .int names.length))
+    (h : iterLoop (g + 1) names lv w body σd = (.ret, σ')) : Exec img s (RetPost K σ') := by
+  have hnum : (Val.int names.length).asNum = some (((names.length : Int) : Rat), false) := rfl
+  have hfirst : CodeAt img (pc + 1) ([.moveq (.int 0) counter] ++ disc ++ withClause w) →
+      ∀ t, At K (pc + 1) (stk.inner [] []) [] σ t →
+      Exec img t (fun t' => ∃ vars', At K (pc + 1 + 1 + disc.length) (stk.inner vars' (names.map .str)) [] σd t' ∧
+        getVar vars' .counter = .int names.length) := by
+    intro hcpre t ht
+    refine (exec_moveqLV (.int 0) .counter ht.2 ht.1 hcpre.left.left.head).trans fun t1 ht1 => ?_
+    exact hdisc _ t1 _ ht1.2 ht1.1 hcpre.left.right (getVar_putVar _ _ _)
+  simp only [iterLoop] at h
+  cases w with
+  | none =>
+    simp only at h
+    refine loop_counted_ret g ihC _ (some lv) none body hb names σ σd σ' s pc exit stk sim hpc hc ?_ h
+    intro hcpre t ht
+    refine (hfirst hcpre t ht).mono fun t' ⟨vars', ht', hcnt⟩ => ?_
+    refine ⟨vars', _, _, false, ⟨?_, ht'.2⟩, hcnt, hnum, by simp, passes_nat _⟩
+    rw [ht'.1]; simp [withClause]; omega
+  | some wc =>
+    have hwc : WithOK V wc := hw
+    simp only at h
+    split at h
+    · rename_i o' hew
+      simp only [Prod.mk.injEq] at h
+      exact ((evalWith_error g _ σd _ hew).2.2 h.1).elim
+    · simp at h
+    · rename_i i σ2 hew
+      have hpost : loopPost (withVar (some wc)) = postOf (some (withVarOf wc, i)) := by
+        rw [withVar_eq]; rfl
+      rw [hpost] at hc
+      refine loop_counted_ret g ihC _ (some lv) (some (withVarOf wc, i)) body hb names σ σ2 σ' s pc exit stk sim hpc
+        hc ?_ h
+      intro hcpre t ht
+      refine (hfirst hcpre t ht).trans fun t1 ⟨vars1, ht1, hcnt1⟩ => ?_
+      have hcw : CodeAt img (pc + 1 + 1 + disc.length) (withCode wc) := by
+        have := hcpre.right
+        rw [withClause_some] at this
+        exact this.cast (by simp; omega)
+      refine (exec_with ihRvs wc hwc (.int names.length) _ false ht1.2 ht1.1 hcw hcnt1 hnum hew).mono
+        fun t2 ⟨vars2, ht2, hc2, hi2⟩ => ?_
+      refine ⟨vars2, _, _, false, ⟨?_, ht2.2⟩, hc2, hnum, ?_, passes_nat _⟩
+      · rw [ht2.1]; simp [withClause_some]; omega
+      · intro p' hp'
+        simp only [Option.mem_def, Option.some.injEq] at hp'
+        subst hp'
+        exact hi2
+
+theorem loop_ret_step (f : Nat) (ihRvs : RvToGoals V img K f) (ihW : WhileRet V img K f) (ihC : CountRet V img K f)
+    (ihC1 : ∀ g, g + 1 = f → CountRet V img K g) : LoopRet V img K (f + 1) := by
   intro hd body hhd hb σ σ' s pc exit stk sim hpc hc h
+  have ihRv := ihRvs f (Nat.le_refl f)
   cases hd with
   | forever =>
     exact loop_while_ret f ihW none trivial body hb σ σ' s pc exit stk sim hpc hc
@@ -558,129 +720,142 @@ theorem loop_ret_step (f : Nat) (ihW : WhileRet img K f) (ihC : CountRet img K f
   | while_ c =>
     exact loop_while_ret f ihW (some c) hhd body hb σ σ' s pc exit stk sim hpc hc
       (by simpa only [execLoop] using h)
-  | count n => exact loop_count_ret f ihC n hhd body hb σ σ' s pc exit stk sim hpc hc h
-  | _ => exact absurd hhd (by simp [LoopHdrOK])
-
-
-/-! ### arguments -/
-
-/-- the value of a simple argument at source level -/
-def semVal (σ : S) : Rv → Val
-  | .lit v => v
-  | .var n => σ.lookup n
-  | .reg r => σ.vm.regs r
-  | _ => .none
-
-/-- the callee's dictionary at source level: parameters bound in order -/
-def semArgs (σ : S) : List String → Args → Dict
-  | p :: ps, .cons a rest => (p, semVal σ a) :: semArgs σ ps rest
-  | _, _ => []
-
-theorem evalRv_simple {a : Rv} (ha : SimpleArg a) (f : Nat) (σ : S) :
-    evalRv (f + 1) a σ = .ok (semVal σ a, σ) := by
-  cases ha <;> simp [evalRv, semVal]
-
-theorem evalArgs_simple : ∀ (f : Nat) (ps : List String) (as : Args), SimpleArgs as → ∀ (σ : S),
-    (∀ d σ', evalArgs f ps as σ = .ok (d, σ') → σ' = σ ∧ d = semArgs σ ps as) ∧
-    (∀ o, evalArgs f ps as σ = .error o → o = .outOfFuel) := by
-  intro f
-  induction f with
-  | zero => intro ps as _ σ; simp [evalArgs]
-  | succ f ih =>
-    intro ps as has σ
-    cases ps with
-    | nil => cases as <;> simp [evalArgs, semArgs]
-    | cons p ps =>
-      cases has with
-      | nil => simp [evalArgs, semArgs]
-      | @cons a rest ha hrest =>
-        cases f with
-        | zero => simp [evalArgs, evalRv]
-        | succ f =>
-          obtain ⟨ih1, ih2⟩ := ih ps rest hrest σ
-          simp only [evalArgs, evalRv_simple ha f σ]
-          constructor
-          · intro d σ' h
-            split at h
-            · simp at h
-            · rename_i d' s2 he
-              simp only [Except.ok.injEq, Prod.mk.injEq] at h
-              obtain ⟨rfl, rfl⟩ := h
-              obtain ⟨rfl, rfl⟩ := ih1 d' s2 he
-              exact ⟨rfl, rfl⟩
-          · intro o h
-            split at h
-            · rename_i o' he
-              simp only [Except.error.injEq] at h
-              subst h
-              exact ih2 _ he
-            · simp at h
-
-
-theorem semVal_read {stk : List Frame} {un : List Val} {σ : S} {s : State} (h : SimU K stk un σ s)
-    {a : Rv} (ha : SimpleArg a) (hn : a ≠ .reg .result) : s.read a.src = semVal σ a := by
-  cases ha with
-  | lit v => rfl
-  | var n => simp only [Rv.src, State.read, semVal, h.lookup n]
-  | reg r =>
-    have : r ≠ .result := fun e => hn (by rw [e])
-    simp only [Rv.src, State.read, semVal, h.regs r this]
-
-/-- the machine's `PARAM` sequence builds the source-level dictionary when the parameter names
-are distinct -/
-theorem bindRead_eq {stk : List Frame} {un : List Val} {σ : S} {s : State} (h : SimU K stk un σ s) :
-    ∀ (ps : List String) (as : Args), SimpleArgs as → NoResultReg as → ps.Nodup →
-    ∀ (d : Dict), (∀ p ∈ ps, d.any (·.1 == p) = false) →
-      bindRead s ps as d = d ++ semArgs σ ps as := by
-  intro ps
-  induction ps with
-  | nil => intro as _ _ _ d _; cases as <;> simp [bindRead, semArgs]
-  | cons p ps ih =>
-    intro as has hnr hnd d hd
-    cases has with
-    | nil => simp [bindRead, semArgs]
-    | @cons a rest ha hrest =>
-      have hp : d.any (·.1 == p) = false := hd p (by simp)
-      have hput : d.put p (s.read a.src) = d ++ [(p, semVal σ a)] := by
-        simp only [Dict.put, hp, Bool.false_eq_true, if_false, semVal_read h ha hnr.1]
-      simp only [bindRead, semArgs, hput]
-      rw [ih rest hrest hnr.2 (List.nodup_cons.1 hnd).2 _ ?_]
-      · simp
-      · intro p' hp'
-        have hne : p ≠ p' := fun e => (List.nodup_cons.1 hnd).1 (e ▸ hp')
-        have := hd p' (by simp [hp'])
-        simp [List.any_append, this, hne]
+  | count n => exact loop_count_ret f ihRv ihC n hhd body hb σ σ' s pc exit stk sim hpc hc h
+  | range v a b => exact loop_range_ret f ihRv ihC v a b hhd.1 hhd.2 body hb σ σ' s pc exit stk sim hpc hc h
+  | interp n v a b =>
+    exact loop_with_ret f ihRvs ihC n hhd.1 (.fromTo v a b) hhd.2 body hb σ σ' s pc exit stk sim hpc hc
+      (by simp only [execLoop] at h; exact h)
+  | cycle n v start =>
+    exact loop_with_ret f ihRvs ihC n hhd.1 (.cycle v start) hhd.2 body hb σ σ' s pc exit stk sim hpc hc
+      (by simp only [execLoop] at h; exact h)
+  | all lv w =>
+    simp only [execLoop] at h
+    cases f with
+    | zero => simp [iterLoop] at h
+    | succ g =>
+      refine loop_names_ret g (fun g' hg' => ihRvs g' (Nat.le_succ_of_le hg')) (ihC1 g rfl) iterLights lv w hhd body hb _ σ _ σ' s pc exit stk sim hpc hc ?_ h
+      intro vars t p ht hp hcd hcnt
+      refine (exec_iterSets (o := .light) (Or.inl rfl) (.loopVar .current) (Or.inl rfl) 0 ht hp hcd hcnt).mono
+        fun t' ⟨vars', ht', hc'⟩ => ⟨vars', by simpa [namesOf, iterLights, iterSets, iterSkeleton_length] using ht',
+          by simpa [namesOf] using hc'⟩
+  | groups lv w =>
+    simp only [execLoop] at h
+    cases f with
+    | zero => simp [iterLoop] at h
+    | succ g =>
+      refine loop_names_ret g (fun g' hg' => ihRvs g' (Nat.le_succ_of_le hg')) (ihC1 g rfl) (iterSets .group) lv w hhd body hb _ σ _ σ' s pc exit stk sim hpc hc
+        ?_ h
+      intro vars t p ht hp hcd hcnt
+      refine (exec_iterSets (o := .group) (Or.inr (Or.inl rfl)) (.reg .result) (Or.inr rfl) 0 ht hp hcd hcnt).mono
+        fun t' ⟨vars', ht', hc'⟩ => ⟨vars', by simpa [namesOf, iterLights, iterSets, iterSkeleton_length] using ht',
+          by simpa [namesOf] using hc'⟩
+  | locations lv w =>
+    simp only [execLoop] at h
+    cases f with
+    | zero => simp [iterLoop] at h
+    | succ g =>
+      refine loop_names_ret g (fun g' hg' => ihRvs g' (Nat.le_succ_of_le hg')) (ihC1 g rfl) (iterSets .location) lv w hhd body hb _ σ _ σ' s pc exit stk sim hpc hc
+        ?_ h
+      intro vars t p ht hp hcd hcnt
+      refine (exec_iterSets (o := .location) (Or.inr (Or.inr rfl)) (.reg .result) (Or.inr rfl) 0 ht hp hcd
+        hcnt).mono
+        fun t' ⟨vars', ht', hc'⟩ => ⟨vars', by simpa [namesOf, iterLights, iterSets, iterSkeleton_length] using ht',
+          by simpa [namesOf] using hc'⟩
+  | iter items lv w =>
+    simp only [execLoop] at h
+    split at h
+    · rename_i o' he
+      simp only [Prod.mk.injEq] at h
+      exact ((iterNames_error items f σ _ he).2.2 h.1).elim
+    · rename_i names σ1 he
+      cases f with
+      | zero => simp [iterNames] at he
+      | succ g =>
+        refine loop_names_ret g (fun g' hg' => ihRvs g' (Nat.le_succ_of_le hg')) (ihC1 g rfl) (iterItems items) lv w hhd.2 body hb names σ σ1 σ' s pc exit stk sim
+          hpc hc ?_ h
+        intro vars t p ht hp hcd hcnt
+        refine (exec_iterItems items hhd.1 (g + 1) ihRvs σ σ1 names vars [] t p 0 he ht hp hcd hcnt).mono
+          fun t' ⟨vars', ht', hc'⟩ => ⟨vars', by simpa using ht', by simpa using hc'⟩
 
 
 /-! ## calls -/
 
+/-- a routine that delivers a value on every path that reaches its end: its last statement is a
+`return` (a `return` anywhere else ends it earlier) -/
+def EndsRet : Block → Prop
+  | .nil => False
+  | .cons (.ret _) .nil => True
+  | .cons _ rest => EndsRet rest
+
+/-- a routine whose last statement is `return` never runs off its end -/
+theorem EndsRet.not_normal : ∀ (f : Nat) (b : Block), EndsRet b → ∀ (s s' : S), execBlock f b s ≠ (.normal, s') := by
+  intro f
+  induction f with
+  | zero => intro b _ s s' he; simp [execBlock] at he
+  | succ f ih =>
+    intro b h s s' he
+    cases b with
+    | nil => exact absurd h (by simp [EndsRet])
+    | cons st rest =>
+      simp only [execBlock] at he
+      cases rest with
+      | nil =>
+        cases st with
+        | ret v =>
+          cases f with
+          | zero => simp [execStmt] at he
+          | succ f =>
+            cases v with
+            | none => simp [execStmt] at he
+            | some rv =>
+              simp only [execStmt] at he
+              cases hev : evalRv f rv s with
+              | ok p => rw [hev] at he; simp at he
+              | error o =>
+                rw [hev] at he
+                have := ((eval_error_ctl f).2.1 rv s o hev).1
+                cases o <;> simp_all
+        | _ => simp [EndsRet] at h
+      | cons st2 rest2 =>
+        have h' : EndsRet (.cons st2 rest2) := by
+          cases st <;> simpa [EndsRet] using h
+        split at he
+        · exact ih _ h' _ s' he
+        · rename_i hne
+          exact hne _ he
+
 /-- the routines of the script are compiled from bodies of the fragment and sit where the image's
-routine table says, each followed by its `END`; other names are not in the table -/
-def RoutinesAt (img : Image) (R : List (String × Sem.Routine)) : Prop :=
+routine table says, each followed by its `END`; other names are not in the table; the routines
+that may be called for their value (`V`) end with a `return` -/
+def RoutinesAt (V : String → Prop) (img : Image) (R : List (String × Sem.Routine)) : Prop :=
   ∀ name, match R.find? (·.1 == name) with
     | some (_, rt) =>
-      FragBlock rt.body ∧ ∃ addr nm, img.routine? name = some addr ∧
+      FragBlock V rt.body ∧ (V name → EndsRet rt.body) ∧ ∃ addr nm, img.routine? name = some addr ∧
         CodeAt img addr (resolve (genBlock rt.body) addr (0 : Nat) ++ [.end_ nm])
     | none => img.routine? name = none
 
 /-- back in the caller after a `return` -/
 theorem RetPost.toSim {K Kc : Ctx} {σ2 : S} {t : State} (h : RetPost K σ2 t) (ret : Nat)
-    (stkc : List Frame) (loc : Option Dict) (hK : K.ret = some (ret, stkc ++ baseOf Kc loc))
-    (hloc : Kc.ret.isSome = loc.isSome) (hrt : Kc.routines = K.routines) (hl : LoopsOnly stkc) :
+    (stkc : Stk) (loc : Option Dict) (hK : K.ret = some (ret, stkc.frames ++ baseOf Kc loc, stkc.ev))
+    (hloc : Kc.ret.isSome = loc.isSome) (hrt : Kc.routines = K.routines) (hl : LoopsOnly stkc.frames)
+    (hok : EvOk Kc.base stkc.frames stkc.ev) :
     At Kc (ret + 1) stkc [] { σ2 with locals := loc, result := .none } t := by
-  obtain ⟨r', rest', hK', hpc, hst⟩ := h.ctx
+  obtain ⟨r', rest', evc', hK', hpc, hst⟩ := h.ctx
+  have hbase : K.base = stkc.ev := by simp only [Ctx.base, hK]
   rw [hK] at hK'
   simp only [Option.some.injEq, Prod.mk.injEq] at hK'
-  obtain ⟨rfl, rfl⟩ := hK'
-  exact ⟨hpc, h.running, hst, hl, h.eval, h.unnamed, ⟨hloc, by rw [hrt]; exact h.routines⟩, h.status,
+  obtain ⟨rfl, rfl, rfl⟩ := hK'
+  exact ⟨hpc, h.running, hst, hl, by rw [h.eval, hbase], hok, h.unnamed, ⟨hloc, by rw [hrt]; exact h.routines⟩,
+    h.status, h.umode,
     h.globals, h.constants, h.lights, h.trace, h.defaultColor, h.matrix, h.draws, h.regs⟩
 
 /-- `END name`: the routine's code ran to its end -/
-theorem exec_end {stk : List Frame} {σ : S} {s : State} {pc : Nat} (h : Sim K stk σ s)
+theorem exec_end {stk : Stk} {σ : S} {s : State} {pc : Nat} (h : Sim K stk σ s)
     (hpc : s.pc = (pc : Int)) (nm : String) (hi : img.code[pc]? = some (.end_ nm)) (ret : Nat)
-    (rest : List Frame) (hK : K.ret = some (ret, rest)) :
-    Exec img s (fun t => t.pc = (ret : Int) ∧ t.stack = rest ∧ t.status = .running ∧ t.eval = [] ∧
-      t.unnamed = [] ∧ σ.routines = K.routines ∧ σ.vm.status = .running ∧ σ.vm.globals = t.globals ∧
+    (rest : List Frame) (evc : List Val) (hK : K.ret = some (ret, rest, evc)) :
+    Exec img s (fun t => t.pc = (ret : Int) ∧ t.stack = rest ∧ t.status = .running ∧ t.eval = K.base ∧
+      t.unnamed = [] ∧ σ.routines = K.routines ∧ σ.vm.status = .running ∧
+      RegsOk σ.vm.regs ∧ σ.vm.globals = t.globals ∧
       σ.vm.constants = t.constants ∧ σ.vm.lights = t.lights ∧ σ.vm.trace = t.trace ∧
       σ.vm.defaultColor = t.defaultColor ∧ σ.vm.matrix = t.matrix ∧ σ.vm.draws = t.draws ∧
       ∀ r, r ≠ .result → σ.vm.regs r = t.regs r) := by
@@ -689,20 +864,20 @@ theorem exec_end {stk : List Frame} {σ : S} {s : State} {pc : Nat} (h : Sim K s
   cases hl : σ.locals with
   | none => rw [hl] at hloc; simp at hloc
   | some d =>
-    have hst : s.stack = stk ++ .call d ret :: rest := by
+    have hst : s.stack = stk.frames ++ .call d ret :: rest := by
       rw [h.stack, hl]; simp only [baseOf, hK]
-    have hret := C03_return_any_depth s stk d ret rest h.loops hst
-    have hret' : s.doReturn = { s with stack := rest, pc := (ret : Int), eval := [] } := by
+    have hret := C03_return_any_depth s stk.frames d ret rest h.loops hst
+    have hret' : s.doReturn = { s with stack := rest, pc := (ret : Int), eval := K.base } := by
       rw [hret]
       apply State.ext' <;> try rfl
-      show (match stk.getLast? with
+      show (match stk.frames.getLast? with
         | some (.loop _ hh) => trimEval s.eval hh
-        | _ => s.eval) = []
+        | _ => s.eval) = K.base
       rw [h.eval]
-      split <;> simp [trimEval]
+      exact h.evok.unwind
     apply Exec.step h.running
     apply Exec.done
-    have : step img s = { s with stack := rest, pc := (ret : Int), eval := [] } := by
+    have : step img s = { s with stack := rest, pc := (ret : Int), eval := K.base } := by
       unfold step
       have h0 : ¬ (s.pc < 0) := by omega
       have h1 : s.pc.toNat = pc := by omega
@@ -710,74 +885,8 @@ theorem exec_end {stk : List Frame} {σ : S} {s : State} {pc : Nat} (h : Sim K s
       simp only [execInstr, hret']
       simp [h.running]
     rw [this]
-    exact ⟨rfl, rfl, h.running, rfl, h.unnamed, h.locals.2, h.status, h.globals, h.constants, h.lights,
+    exact ⟨rfl, rfl, h.running, rfl, h.unnamed, h.locals.2, h.status, h.umode, h.globals, h.constants, h.lights,
       h.trace, h.defaultColor, h.matrix, h.draws, h.regs⟩
-
-
-/-- the context of a callee: it returns to `ret`, above the caller's whole stack -/
-def calleeCtx (K : Ctx) (ret : Nat) (callerStack : List Frame) : Ctx :=
-  ⟨some (ret, callerStack), K.routines⟩
-
-/-- a call of a user routine with simple arguments: calling sequence, body (to its end or to a
-`return`, from any loop depth), back in the caller -/
-theorem call_user (f : Nat) (ihB : ∀ r st, BlockGoal img ⟨some (r, st), K.routines⟩ f)
-    (ihBR : ∀ r st, BlockRet img ⟨some (r, st), K.routines⟩ f)
-    (g : String) (ps : List String) (as : Args) (has : SimpleArgs as) (hnr : NoResultReg as)
-    (hnd : ps.Nodup) (rt : Sem.Routine) (hfrag : FragBlock rt.body) (addr : Nat) (nm : String)
-    (haddr : img.routine? g = some addr)
-    (hbody : CodeAt img addr (resolve (genBlock rt.body) addr (0 : Nat) ++ [.end_ nm]))
-    (σ s2 : S) (o2 : Outcome) (s : State) (pc : Nat) (stk : List Frame)
-    (sim : Sim K stk σ s) (hpc : s.pc = (pc : Int)) (hc : CodeAt img pc (genCall g ps as))
-    (hex : execBlock f rt.body { σ with locals := some (semArgs σ ps as), result := .none } = (o2, s2))
-    (ho2 : o2 = .normal ∨ o2 = .ret) :
-    Exec img s (At K (pc + (genCall g ps as).length) stk []
-      { s2 with locals := σ.locals, result := .none }) := by
-  obtain ⟨hrun, hendctx⟩ := C03_call_sequence img s pc g addr ps as has sim.running hpc haddr hc
-  have hlen := genCall_length g ps as
-  rw [bindArgs_eq_bindRead s as has hnr, bindRead_eq sim ps as has hnr hnd [] (by simp)] at hrun
-  simp only [List.nil_append] at hrun
-  -- the callee's context and the relation at the routine's entry
-  have hsimc : Sim (calleeCtx K (pc + (genCall g ps as).length - 1) s.stack) []
-      { σ with locals := some (semArgs σ ps as), result := .none }
-      (run img ((genCall g ps as).length - 1) s) := by
-    rw [hrun]
-    exact ⟨sim.running, by simp [baseOf, calleeCtx], LoopsOnly.nil, sim.eval, sim.unnamed,
-      ⟨rfl, sim.locals.2⟩, sim.status, sim.globals, sim.constants, sim.lights, sim.trace,
-      sim.defaultColor, sim.matrix, sim.draws, fun r hr => by simp only [if_neg hr]; exact sim.regs r hr⟩
-  have hpcc : (run img ((genCall g ps as).length - 1) s).pc = (addr : Int) := by rw [hrun]
-  have hentry : Exec img s (At (calleeCtx K (pc + (genCall g ps as).length - 1) s.stack) addr [] []
-      { σ with locals := some (semArgs σ ps as), result := .none }) :=
-    ⟨(genCall g ps as).length - 1, hpcc, hsimc⟩
-  refine hentry.trans fun t ht => ?_
-  have hstk : s.stack = stk ++ baseOf K σ.locals := sim.stack
-  have hcb : CodeAt img addr (resolve (genBlock rt.body) addr (0 : Nat)) := hbody.left
-  have hce : img.code[addr + (genBlock rt.body).length]? = some (.end_ nm) := by
-    have := hbody.right.head
-    rwa [resolve_length] at this
-  rcases ho2 with rfl | rfl
-  · -- the body runs to its end
-    refine ((ihB (pc + (genCall g ps as).length - 1) s.stack) rt.body hfrag _ s2 .normal t addr 0 [] ht.2 ht.1 hcb hex (Or.inl rfl)).trans
-      fun t1 ht1 => ?_
-    simp only [Target] at ht1
-    refine (exec_end ht1.2 ht1.1 nm hce (pc + (genCall g ps as).length - 1) s.stack rfl).trans
-      fun t2 ht2 => ?_
-    obtain ⟨h1, h2, h3, h4, h5, h6, h7, h8, h9, h10, h11, h12, h13, h14, h15⟩ := ht2
-    apply Exec.step h3
-    apply Exec.done
-    rw [step_eq _ t2 h3 h1 hendctx rfl (by simp only [execInstr]) h3]
-    refine ⟨?_, h3, ?_, sim.loops, h4, h5, ⟨sim.locals.1, h6⟩, h7, h8, h9, h10, h11, h12, h13, h14, h15⟩
-    · show t2.pc + 1 = _
-      rw [h1]; omega
-    · show t2.stack = _
-      rw [h2, hstk]
-  · -- the body returns
-    refine ((ihBR (pc + (genCall g ps as).length - 1) s.stack) rt.body hfrag _ s2 t addr 0 [] ht.2 ht.1
-      hcb hex).mono fun t1 ht1 => ?_
-    have := ht1.toSim (Kc := K) (pc + (genCall g ps as).length - 1) stk σ.locals
-      (by rw [hstk]) sim.locals.1 rfl sim.loops
-    have e : pc + (genCall g ps as).length - 1 + 1 = pc + (genCall g ps as).length := by omega
-    rw [e] at this
-    exact this
 
 
 theorem step_jsr_builtin (img : Image) (s : State) (pc : Nat) (g : String) (d : Dict)
@@ -800,103 +909,9 @@ theorem step_jsr_builtin (img : Image) (s : State) (pc : Nat) (g : String) (d : 
   · simp only [hr, Bool.false_eq_true, if_false, State.setReg, hs]
     apply State.ext' <;> simp [hpc]
 
-/-- a call of a built-in function as a statement (its value is dropped; `random` still counts
-as a draw) -/
-theorem call_builtin (g : String) (ps : List String) (as : Args) (has : SimpleArgs as)
-    (hnr : NoResultReg as) (hnd : ps.Nodup) (hnone : img.routine? g = none) (names : List String)
-    (hbp : builtinParams g = some names) (v : Val)
-    (σ : S) (s : State) (pc : Nat) (stk : List Frame)
-    (sim : Sim K stk σ s) (hpc : s.pc = (pc : Int)) (hc : CodeAt img pc (genCall g ps as))
-    (hval : callBuiltin g (names.map fun n => ((semArgs σ ps as).get n).getD .none) σ.vm.draws = .val v) :
-    Exec img s (At K (pc + (genCall g ps as).length) stk []
-      { σ with vm := if g == "random" then { σ.vm with draws := σ.vm.draws + 1 } else σ.vm }) := by
-  have hlen := genCall_length g ps as
-  simp only [genCall] at hc
-  have hctx : img.code[pc]? = some .ctx := hc.left.left.head
-  have hpar : CodeAt img (pc + 1) (genParams ps as) := by
-    have := hc.left.right
-    simpa using this
-  have hjsr : img.code[pc + 1 + (genParams ps as).length]? = some (.jsr g) := by
-    have := hc.right.head
-    simp only [List.length_append, List.length_cons, List.length_nil] at this
-    rw [← this]; congr 1; omega
-  have hend : img.code[pc + 1 + (genParams ps as).length + 1]? = some .endCtx := by
-    have := hc.right.tail.head
-    simp only [List.length_append, List.length_cons, List.length_nil] at this
-    rw [← this]; congr 1; omega
-  -- CTX and the arguments
-  have hrun : run img (1 + (genParams ps as).length) s =
-      { s with pc := ((pc + 1 : Nat) : Int) + (genParams ps as).length,
-               stack := .pending (semArgs σ ps as) :: s.stack,
-               regs := fun r => if r = .result then lastRes s (s.regs .result) ps as else s.regs r } := by
-    rw [run_add, run_one _ _ sim.running, step_ctx img s pc sim.running hpc hctx]
-    rw [run_params img s as has ps _ (pc + 1) [] s.stack (by exact sim.running) (by simp) (by rfl)
-      (by intro n; rfl) (by intro r _; rfl) hpar]
-    rw [bindArgs_eq_bindRead s as has hnr, bindRead_eq sim ps as has hnr hnd [] (by simp)]
-    apply State.ext' <;> simp
-  refine Exec.trans (Q := fun t => t = _) ⟨1 + (genParams ps as).length, hrun⟩ fun t ht => ?_
-  subst ht
-  -- JSR of a built-in
-  refine Exec.next (by exact sim.running)
-    (step_jsr_builtin img _ (pc + 1 + (genParams ps as).length) g (semArgs σ ps as) s.stack names v
-      (by exact sim.running) (by simp) rfl hnone hbp (by rw [← sim.draws]; exact hval) hjsr) ?_
-  -- END_CTX
-  refine Exec.next (by exact sim.running)
-    (step_eq (pc := pc + 1 + (genParams ps as).length + 1) _ _ (by exact sim.running) (by simp) hend rfl
-      rfl (by exact sim.running)) ?_
-  apply Exec.done
-  refine ⟨?_, sim.running, sim.stack, sim.loops, sim.eval, sim.unnamed, sim.locals, ?_, ?_, ?_, ?_, ?_,
-    ?_, ?_, ?_, ?_⟩
-  · show ((pc + 1 + (genParams ps as).length : Nat) : Int) + 1 + 1 = _
-    rw [hlen]; omega
-  all_goals (by_cases hr : (g == "random") = true)
-  all_goals try simp only [hr, if_true, Bool.false_eq_true, if_false]
-  all_goals first
-    | exact sim.status | exact sim.globals | exact sim.constants | exact sim.lights | exact sim.trace
-    | exact sim.defaultColor | exact sim.matrix | exact sim.draws
-    | (show σ.vm.draws + 1 = s.draws + 1; rw [sim.draws])
-    | (intro r hr'; show σ.vm.regs r = (if r = Reg.result then v else if r = Reg.result then _ else s.regs r)
-       simp only [if_neg hr']; exact sim.regs r hr')
-
-
-/-- a call with simple arguments fails only with a fault, an uninterpreted operation or lack of
-fuel -/
-theorem callRoutine_error (f : Nat) (g : String) (ps : List String) (as : Args) (has : SimpleArgs as)
-    (σ : S) (o : Outcome) (h : callRoutine f g ps as σ = .error o) :
-    o ≠ .normal ∧ o ≠ .brk ∧ o ≠ .ret := by
-  cases f with
-  | zero => simp [callRoutine] at h; subst h; simp
-  | succ f =>
-    simp only [callRoutine] at h
-    split at h
-    · rename_i o' he
-      simp only [Except.error.injEq] at h
-      subst h
-      rw [(evalArgs_simple f ps as has σ).2 _ he]
-      simp
-    · split at h
-      · split at h
-        · simp at h
-        · simp at h
-        · simp at h; subst h; simp
-        · rename_i hn hr hb _
-          simp only [Except.error.injEq] at h
-          subst h
-          exact ⟨hn, hb, hr⟩
-      · split at h
-        · split at h
-          · simp at h
-          · simp at h; subst h; simp
-          · simp at h; subst h; simp
-        · simp at h; subst h; simp
-
-
-/-- the call statement: a user routine of the script, or a built-in -/
-theorem stmt_call (f : Nat) (ihB : ∀ r st, BlockGoal img ⟨some (r, st), K.routines⟩ f)
-    (ihBR : ∀ r st, BlockRet img ⟨some (r, st), K.routines⟩ f)
-    (hR : RoutinesAt img K.routines) (g : String) (ps : List String) (as : Args)
-    (has : SimpleArgs as) (hnr : NoResultReg as) (hnd : ps.Nodup) :
-    StmtGoal img K (.call g ps as) (f + 2) := by
+/-- the call statement: a user routine of the script, or a built-in; its value is dropped -/
+theorem stmt_call (f : Nat) (ihC : CallGoal V img K f) (g : String) (ps : List String) (as : Args)
+    (has : ArgsC V as) (hnd : ps.Nodup) : StmtGoal img K (.call g ps as) (f + 1) := by
   intro σ σ' o s pc exit stk sim hpc hc h ho
   simp only [genStmt, resolve_ins, ins_length] at hc ⊢
   simp only [execStmt] at h
@@ -904,56 +919,16 @@ theorem stmt_call (f : Nat) (ihB : ∀ r st, BlockGoal img ⟨some (r, st), K.ro
   · rename_i v s1 hcall
     simp only [Prod.mk.injEq] at h
     obtain ⟨rfl, rfl⟩ := h
-    simp only [callRoutine] at hcall
-    split at hcall
-    · simp at hcall
-    · rename_i args σa hargs
-      obtain ⟨rfl, rfl⟩ := (evalArgs_simple f ps as has σ).1 _ _ hargs
-      have hRg := hR g
-      rw [← sim.locals.2] at hRg
-      split at hcall
-      · rename_i n' rt hfind
-        rw [hfind] at hRg
-        obtain ⟨hfrag, addr, nm, haddr, hbody⟩ := hRg
-        split at hcall
-        · rename_i s2 hex
-          simp only [Except.ok.injEq, Prod.mk.injEq] at hcall
-          obtain ⟨_, rfl⟩ := hcall
-          exact call_user f ihB ihBR g ps as has hnr hnd rt hfrag addr nm haddr hbody σa s2 .normal s pc
-            stk sim hpc hc hex (Or.inl rfl)
-        · rename_i s2 hex
-          simp only [Except.ok.injEq, Prod.mk.injEq] at hcall
-          obtain ⟨_, rfl⟩ := hcall
-          exact call_user f ihB ihBR g ps as has hnr hnd rt hfrag addr nm haddr hbody σa s2 .ret s pc
-            stk sim hpc hc hex (Or.inr rfl)
-        · simp at hcall
-        · simp at hcall
-      · rename_i hfind
-        rw [hfind] at hRg
-        split at hcall
-        · rename_i names hbp
-          split at hcall
-          · rename_i v' hval
-            simp only [Except.ok.injEq, Prod.mk.injEq] at hcall
-            obtain ⟨_, rfl⟩ := hcall
-            exact call_builtin g ps as has hnr hnd hRg names hbp v' σa s pc stk sim hpc hc hval
-          · simp at hcall
-          · simp at hcall
-        · simp at hcall
+    exact (ihC g ps as hnd has σ _ v s pc stk [] [] (SimX.of_sim sim) hpc hc hcall).mono
+      fun t ⟨h1, h2, _⟩ => ⟨h1, h2.to_sim⟩
   · rename_i o' hcall
     simp only [Prod.mk.injEq] at h
     obtain ⟨rfl, rfl⟩ := h
-    have := callRoutine_error (f + 1) g ps as has σ _ hcall
-    rcases ho with rfl | rfl <;> simp at this
-
-theorem stmt_call_one (g : String) (ps : List String) (as : Args) :
-    StmtGoal img K (.call g ps as) 1 := by
-  intro σ σ' o s pc exit stk sim hpc hc h ho
-  simp only [execStmt, callRoutine, Prod.mk.injEq] at h
-  rcases ho with rfl | rfl <;> simp at h
+    have := (eval_error_ctl f).2.2.2 g ps as σ _ hcall
+    rcases ho with rfl | rfl <;> simp [NotCtl] at this
 
 /-- a call statement never ends with `return` -/
-theorem call_not_ret (f : Nat) (g : String) (ps : List String) (as : Args) (has : SimpleArgs as)
+theorem call_not_ret (f : Nat) (g : String) (ps : List String) (as : Args)
     (σ σ' : S) : execStmt f (.call g ps as) σ ≠ (.ret, σ') := by
   intro h
   cases f with
@@ -964,34 +939,34 @@ theorem call_not_ret (f : Nat) (g : String) (ps : List String) (as : Args) (has 
     · simp at h
     · rename_i o' hcall
       simp only [Prod.mk.injEq] at h
-      exact (callRoutine_error f g ps as has σ _ hcall).2.2 h.1
+      exact ((eval_error_ctl f).2.2.2 g ps as σ _ hcall).2.2 h.1
 
-theorem stmts_ret_zero : StmtsRet img K 0 := by
+theorem stmts_ret_zero : StmtsRet V img K 0 := by
   intro st _ σ σ' s pc exit stk _ _ _ h
   simp [execStmt] at h
 
 /-- `return` reaches out of every compound statement -/
-theorem stmts_ret_step (f : Nat) (ihBR : BlockRet img K f) (ihOs : OperandsRet img K f)
-    (ihL : LoopRet img K f) (ret : Nat) (rest : List Frame) (hK : K.ret = some (ret, rest)) :
-    StmtsRet img K (f + 1) := by
+theorem stmts_ret_step (f : Nat) (ihRv : RvToGoal V img K f) (ihBR : BlockRet V img K f) (ihOs : OperandsRet V img K f)
+    (ihL : LoopRet V img K f) (ret : Nat) (rest : List Frame) (evc : List Val)
+    (hK : K.ret = some (ret, rest, evc)) :
+    StmtsRet V img K (f + 1) := by
   intro st hst σ σ' s pc exit stk sim hpc hc h
   rcases leaf_not_ret f st hst σ σ' h with ⟨c, t, e, rfl⟩ | ⟨hd, b, rfl⟩ | ⟨k, ops, rfl⟩ | ⟨v, rfl⟩ |
     ⟨g, ps, as, rfl⟩
   · -- if
     cases e with
     | none =>
-      have hc1 : RvOK c := hst.1
-      have ht1 : FragBlock t := hst.2.1
+      have hc1 : RvC V c := hst.1
+      have ht1 : FragBlock V t := hst.2.1
       simp only [execStmt] at h
       split at h
       · rename_i o' hev
         simp only [Prod.mk.injEq] at h
-        exact ((evalRv_error hc1 f σ _ hev).2.2 h.1).elim
+        exact ((evalRvC_error hev).2.2 h.1).elim
       · rename_i x σ1 hev
         simp only [genStmt, genIf, resolve_append, resolve_ins, ins_length, resolve, List.length_append,
           List.length_cons, List.length_nil] at hc
-        obtain ⟨rfl, hex⟩ := exec_toResult c hc1 sim hpc hc.left.left hev
-        refine hex.trans fun t0 ⟨ht0, hres⟩ => ?_
+        refine (rv_toResult ihRv c hc1 sim hpc hc.left.left hev).trans fun t0 ⟨ht0, hres⟩ => ?_
         by_cases hx : x.truthy = true
         · simp only [hx, if_true] at h
           refine (exec_jump .ifFalse _ (pc + (genRv c (.to result)).length + 1) (by simp) ht0.2 ht0.1
@@ -999,19 +974,18 @@ theorem stmts_ret_step (f : Nat) (ihBR : BlockRet img K f) (ihOs : OperandsRet i
           exact ihBR t ht1 σ1 σ' t1 _ exit stk ht1'.2 ht1'.1 (cat hc.right) h
         · simp [hx] at h
     | some e =>
-      have hc1 : RvOK c := hst.1
-      have ht1 : FragBlock t := hst.2.1
-      have he1 : FragBlock e := hst.2.2
+      have hc1 : RvC V c := hst.1
+      have ht1 : FragBlock V t := hst.2.1
+      have he1 : FragBlock V e := hst.2.2
       simp only [execStmt] at h
       split at h
       · rename_i o' hev
         simp only [Prod.mk.injEq] at h
-        exact ((evalRv_error hc1 f σ _ hev).2.2 h.1).elim
+        exact ((evalRvC_error hev).2.2 h.1).elim
       · rename_i x σ1 hev
         simp only [genStmt, genIf, resolve_append, resolve_ins, ins_length, resolve, List.length_append,
           List.length_cons, List.length_nil] at hc
-        obtain ⟨rfl, hex⟩ := exec_toResult c hc1 sim hpc hc.left.left.left.left hev
-        refine hex.trans fun t0 ⟨ht0, hres⟩ => ?_
+        refine (rv_toResult ihRv c hc1 sim hpc hc.left.left.left.left hev).trans fun t0 ⟨ht0, hres⟩ => ?_
         have hj := hc.left.left.left.right.head
         have hct := hc.left.left.right
         have hce := hc.right
@@ -1049,12 +1023,12 @@ theorem stmts_ret_step (f : Nat) (ihBR : BlockRet img K f) (ihOs : OperandsRet i
       exact ihOs k ops hst σ2 σ' t2 _ exit stk ht2.2 (by rw [ht2.1]; congr 1) hcr hrest
     · exact (device_ne_ret hw).elim
   · -- return
-    exact stmt_ret f v hst ret rest hK σ σ' s pc exit stk sim hpc hc h
-  · exact (call_not_ret (f + 1) g ps as hst.1 σ σ' h).elim
+    exact stmt_ret f ihRv v hst ret rest evc hK σ σ' s pc exit stk sim hpc hc h
+  · exact (call_not_ret (f + 1) g ps as σ σ' h).elim
 
 
 /-- a `return` statement never ends normally or with `break` -/
-theorem stmt_ret_goal (f : Nat) (v : Option Rv) (hv : match v with | some rv => RvOK rv | none => True) :
+theorem stmt_ret_goal (f : Nat) (v : Option Rv) :
     StmtGoal img K (.ret v) (f + 1) := by
   intro σ σ' o s pc exit stk sim hpc hc h ho
   exfalso
@@ -1063,7 +1037,6 @@ theorem stmt_ret_goal (f : Nat) (v : Option Rv) (hv : match v with | some rv => 
     simp only [execStmt, Prod.mk.injEq] at h
     rcases ho with rfl | rfl <;> simp at h
   | some rv =>
-    have hv : RvOK rv := hv
     simp only [execStmt] at h
     split at h
     · simp only [Prod.mk.injEq] at h
@@ -1071,7 +1044,7 @@ theorem stmt_ret_goal (f : Nat) (v : Option Rv) (hv : match v with | some rv => 
     · rename_i o' hev
       simp only [Prod.mk.injEq] at h
       obtain ⟨rfl, rfl⟩ := h
-      exact error_excluded hv hev ho
+      exact errorC_excluded hev ho
 
 end Sim
 end Bardolph
